@@ -50,6 +50,7 @@ class Contract:
         self.effects = kw.pop("effects", None)    # clause appended to the ghost effect trace (callers)
         self.cover = kw.pop("cover", [])
         self.l2 = kw.pop("l2", None)
+        self.hide = kw.pop("hide", [])            # ensures labels not revealed to callers (opaque)
         assert not kw, kw
         CONTRACTS[target] = self
 
